@@ -28,6 +28,15 @@ const (
 	ExitInconclusive = 2
 )
 
+// OutDir is where evidence and replay files go: VerifDir, unless VERIF_OUT is set (runs
+// against a scratch copy of the repository must not overwrite the real evidence).
+func OutDir() string {
+	if d := os.Getenv("VERIF_OUT"); d != "" {
+		return d
+	}
+	return VerifDir
+}
+
 // VerifDir is where MANIFEST.json, evidence/, replay/ and KNOWN_FINDINGS.txt live.
 var VerifDir = "/verif"
 
@@ -532,7 +541,7 @@ func (c *Ctx) Finish() int {
 		fmt.Println("cannot marshal evidence:", err)
 		return ExitInconclusive
 	}
-	dir := filepath.Join(VerifDir, "evidence")
+	dir := filepath.Join(OutDir(), "evidence")
 	os.MkdirAll(dir, 0o755)
 	if err := os.WriteFile(filepath.Join(dir, c.Prop+".json"), append(b, '\n'), 0o644); err != nil {
 		fmt.Println("cannot write evidence:", err)
@@ -557,7 +566,7 @@ type ReplayFile struct {
 }
 
 func (c *Ctx) writeReplay(v *Violation) string {
-	dir := filepath.Join(VerifDir, "replay", c.Prop)
+	dir := filepath.Join(OutDir(), "replay", c.Prop)
 	os.MkdirAll(dir, 0o755)
 	name := fmt.Sprintf("%016x.json", Hash(v.Signature))
 	path := filepath.Join(dir, name)
